@@ -208,6 +208,18 @@ pub fn gen_request(rng: &mut Rng, cfg: &CellCfg, index: u64, front: Front) -> Re
         items.push(g);
     }
 
+    // a list-valued end-to-end field, as one list or as several field lines
+    if rng.chance(1, 6) {
+        tags.push("via");
+        let hops = ["1.1 edge-a", "1.0 fred", "2 cdn.example (squid/3.5)"];
+        if rng.bool() {
+            items.push(vec![(case_variant(rng, "Via", lower), hops.join(", ").into_bytes())]);
+        } else {
+            tags.push("via:lines>1");
+            items.push(hops.iter().map(|h| (case_variant(rng, "Via", lower), h.as_bytes().to_vec())).collect());
+        }
+    }
+
     // cookies
     if rng.chance(1, 2) {
         tags.push("cookie");
@@ -272,37 +284,58 @@ pub fn gen_request(rng: &mut Rng, cfg: &CellCfg, index: u64, front: Front) -> Re
     }
 
     // hop-by-hop (H1 fronts; an H2 request carrying them is malformed and refused as a whole)
-    if !lower && rng.chance(1, 4) {
+    if !lower && rng.chance(3, 10) {
         tags.push("hop");
-        let mut g = Fields::new();
-        match rng.below(7) {
-            0 => g.push((case_variant(rng, "Connection", false), b"keep-alive".to_vec())),
-            1 => {
-                tags.push("hop:listed");
-                g.push((case_variant(rng, "Connection", false), b"X-Hop-One, keep-alive, x-hop-two".to_vec()));
-                g.push(("X-Hop-One".to_owned(), b"hop1".to_vec()));
-                g.push(("x-hop-two".to_owned(), b"hop2".to_vec()));
-                g.push(("Keep-Alive".to_owned(), b"timeout=5, max=100".to_vec()));
+        let mut options: Vec<String> = Vec::new();
+        let mut fields = Fields::new();
+        let n_custom = rng.urange(0, 3);
+        for name in ["X-Hop-One", "x-hop-two", "X-Secret-Hop"].iter().take(n_custom) {
+            options.push(case_variant(rng, name, false));
+            fields.push(((*name).to_owned(), format!("hop-value-of-{name}").into_bytes()));
+        }
+        if n_custom > 0 {
+            tags.push("hop:listed");
+        }
+        match rng.below(8) {
+            0 | 1 => {
+                options.push(case_variant(rng, "keep-alive", false));
+                fields.push(("Keep-Alive".to_owned(), b"timeout=5, max=100".to_vec()));
             }
-            2 => {
-                g.push((case_variant(rng, "Proxy-Connection", false), b"keep-alive".to_vec()));
+            2 | 3 => {
+                options.push(case_variant(rng, "TE", false));
+                match rng.below(3) {
+                    0 => fields.push(("TE".to_owned(), b"trailers".to_vec())),
+                    1 => fields.push(("TE".to_owned(), b"gzip;q=0.5, trailers".to_vec())),
+                    _ => {
+                        tags.push("te:lines>1");
+                        fields.push(("TE".to_owned(), b"gzip".to_vec()));
+                        fields.push(("te".to_owned(), b"trailers".to_vec()));
+                    }
+                }
             }
-            3 => {
-                g.push(("TE".to_owned(), b"trailers".to_vec()));
-                g.push(("Connection".to_owned(), b"TE".to_vec()));
-            }
-            4 => g.push(("TE".to_owned(), b"gzip, trailers".to_vec())),
-            5 => {
-                tags.push("hop:listed");
-                g.push(("Connection".to_owned(), b"x-secret-hop".to_vec()));
-                g.push(("X-Secret-Hop".to_owned(), b"must-not-reach-h2".to_vec()));
-            }
-            _ => {
+            4 => {
                 tags.push("hop:close");
-                g.push((case_variant(rng, "Connection", false), b"close".to_vec()));
+                options.push(case_variant(rng, "close", false));
+            }
+            _ => {}
+        }
+        if rng.chance(1, 8) {
+            fields.push((case_variant(rng, "Proxy-Connection", false), b"keep-alive".to_vec()));
+        }
+        if !options.is_empty() {
+            // the same option list as one field line or spread over several
+            rng.shuffle(&mut options);
+            let n_lines = if options.len() > 1 && rng.chance(3, 5) { rng.urange(2, options.len().min(3)) } else { 1 };
+            if n_lines > 1 {
+                tags.push("hop:connection-lines>1");
+            }
+            let per = options.len().div_ceil(n_lines);
+            for line in options.chunks(per) {
+                let sep = *rng.pick(&[", ", ",", " ,\t", ",  ", " , "]);
+                fields.push((case_variant(rng, "Connection", false), line.join(sep).into_bytes()));
             }
         }
-        for f in g {
+        for f in fields {
             items.push(vec![f]);
         }
     } else if lower && rng.chance(1, 8) {
@@ -424,6 +457,62 @@ pub fn gen_request(rng: &mut Rng, cfg: &CellCfg, index: u64, front: Front) -> Re
         }
         b => b,
     };
+    // `Trailer` announcement (a list-valued field: one line or several)
+    let mut headers = headers;
+    if let Body::Chunked(_, tr) = &body {
+        if !tr.is_empty() && rng.chance(3, 10) {
+            tags.push("trailer-announcement");
+            let names: Vec<String> = tr.iter().map(|(n, _)| n.clone()).collect();
+            let at = rng.usize_below(headers.len() + 1);
+            if names.len() > 1 && rng.bool() {
+                for (k, n) in names.iter().enumerate() {
+                    headers.insert((at + k).min(headers.len()), (case_variant(rng, "Trailer", lower), n.clone().into_bytes()));
+                }
+            } else {
+                headers.insert(at, (case_variant(rng, "Trailer", lower), names.join(", ").into_bytes()));
+            }
+        }
+    }
+    // correlation token of the harness (an ordinary end-to-end field, compared like the others): lets
+    // the cell loop tell this request's backend record from a late record of an earlier request
+    let at = rng.usize_below(headers.len() + 1);
+    headers.insert(at, (case_variant(rng, "X-Vh-Req", lower), format!("{}-{}", cfg.cell, index).into_bytes()));
+    // H1: cut the request bytes at structurally interesting positions
+    let mut cuts: Vec<Cut> = Vec::new();
+    if !lower {
+        let pm = |rng: &mut Rng| rng.range(0, 1000) as u16;
+        let has_trailers = matches!(&body, Body::Chunked(_, t) if !t.is_empty());
+        if matches!(&body, Body::Chunked(..)) && rng.chance(if has_trailers { 4 } else { 1 }, 5) {
+            tags.push("seg:trailer-region");
+            cuts.push(Cut::InTrailerRegion(pm(rng)));
+            if rng.chance(1, 3) {
+                cuts.push(Cut::InTrailerRegion(pm(rng)));
+            }
+        }
+        if rng.chance(1, 4) {
+            match rng.below(5) {
+                0 | 1 => {
+                    tags.push("seg:in-head");
+                    cuts.push(Cut::InHead(pm(rng)));
+                    if rng.bool() {
+                        cuts.push(Cut::InHead(pm(rng)));
+                    }
+                }
+                2 => {
+                    tags.push("seg:head-body");
+                    cuts.push(Cut::HeadBody);
+                }
+                3 => {
+                    tags.push("seg:chunk-size");
+                    cuts.push(Cut::InChunkSize(pm(rng)));
+                }
+                _ => {
+                    tags.push("seg:in-body");
+                    cuts.push(Cut::InBody(pm(rng)));
+                }
+            }
+        }
+    }
     let method = match &body {
         Body::None => *rng.pick(&["GET", "GET", "GET", "DELETE", "OPTIONS", "QUERYX"]),
         Body::Length(b) if b.is_empty() => *rng.pick(&["GET", "DELETE", "POST"]),
@@ -431,7 +520,7 @@ pub fn gen_request(rng: &mut Rng, cfg: &CellCfg, index: u64, front: Front) -> Re
     }
     .to_owned();
 
-    ReqSpec { index, front, cluster, variant, method, authority, path, headers, body, host_last: !lower && rng.chance(1, 5), tags }
+    ReqSpec { index, front, cluster, variant, method, authority, path, headers, body, host_last: !lower && rng.chance(1, 5), cuts, tags }
 }
 
 /// response header list of a recording backend (deterministic in (seed, cell, serial))
@@ -477,12 +566,31 @@ pub fn gen_response(rng: &mut Rng, corr_name: &str, sticky_name: &str, back: Bac
     if rng.chance(1, 10) {
         items.push(vec![(case_variant(rng, RESP_ADD.0, lower), b"backend-own-value".to_vec())]);
     }
-    if !lower && rng.chance(1, 5) {
-        match rng.below(4) {
-            0 => items.push(vec![("Connection".to_owned(), b"keep-alive".to_vec()), ("Keep-Alive".to_owned(), b"timeout=5".to_vec())]),
-            1 => items.push(vec![("Connection".to_owned(), b"X-Resp-Hop".to_vec()), ("X-Resp-Hop".to_owned(), b"hop".to_vec())]),
-            2 => items.push(vec![("Proxy-Connection".to_owned(), b"keep-alive".to_vec())]),
-            _ => items.push(vec![("Connection".to_owned(), b"close".to_vec())]),
+    if !lower && rng.chance(1, 4) {
+        // hop-by-hop response fields; the option list as one Connection line or several
+        let mut options: Vec<String> = Vec::new();
+        let n_custom = rng.urange(0, 2);
+        for name in ["X-Resp-Hop", "x-resp-hop-two"].iter().take(n_custom) {
+            options.push(case_variant(rng, name, false));
+            items.push(vec![((*name).to_owned(), format!("hop-value-of-{name}").into_bytes())]);
+        }
+        match rng.below(6) {
+            0 | 1 => {
+                options.push(case_variant(rng, "keep-alive", false));
+                items.push(vec![("Keep-Alive".to_owned(), b"timeout=5".to_vec())]);
+            }
+            2 => options.push("close".to_owned()),
+            3 => items.push(vec![("Proxy-Connection".to_owned(), b"keep-alive".to_vec())]),
+            _ => {}
+        }
+        if !options.is_empty() {
+            rng.shuffle(&mut options);
+            let n_lines = if options.len() > 1 && rng.chance(3, 5) { options.len().min(3) } else { 1 };
+            let per = options.len().div_ceil(n_lines);
+            for line in options.chunks(per) {
+                let sep = *rng.pick(&[", ", ",", " ,\t", ",  "]);
+                items.push(vec![(case_variant(rng, "Connection", false), line.join(sep).into_bytes())]);
+            }
         }
     }
     rng.shuffle(&mut items);
@@ -495,5 +603,6 @@ pub fn gen_response(rng: &mut Rng, corr_name: &str, sticky_name: &str, back: Bac
             trailers.push((case_variant(rng, "X-Resp-Trailer", lower), gen_value(rng, &mut 0, &mut tags)));
         }
     }
-    RespSpec { status: *rng.pick(&[200u16, 200, 200, 201, 404, 500, 418]), headers, body_len, chunked, trailers }
+    let cut_in_trailer_region = (!lower && chunked && rng.chance(if trailers.is_empty() { 1 } else { 3 }, 5)).then(|| rng.range(0, 1000) as u16);
+    RespSpec { status: *rng.pick(&[200u16, 200, 200, 201, 404, 500, 418]), headers, body_len, chunked, trailers, cut_in_trailer_region }
 }
